@@ -100,29 +100,31 @@ def selftest(pid):
         seeds = sorted(glob.glob(os.path.join(ROOT, "seeded", pid + "-*", "patch.diff")))
         benign = sorted(glob.glob(os.path.join(ROOT, "selftest", "benign", "*.diff")))
         out = {"mutants": {}, "benign": {}}
-        for kind, files in (("mutants", seeds), ("benign", benign)):
-            for f in files:
-                name = os.path.basename(os.path.dirname(f)) if kind == "mutants" else os.path.basename(f)
-                wt = tempfile.mkdtemp(prefix="mirq-st-")
-                try:
-                    shutil.rmtree(wt)
-                    shutil.copytree(repo, wt, ignore=shutil.ignore_patterns("target", ".git"))
-                    r = subprocess.run(["git", "apply", "--unsafe-paths", "--directory=" + wt, f], cwd="/", stdout=subprocess.PIPE, stderr=subprocess.STDOUT, text=True)
-                    if r.returncode != 0:
-                        r = subprocess.run(["patch", "-p1", "-s", "-i", f], cwd=wt, stdout=subprocess.PIPE, stderr=subprocess.STDOUT, text=True)
-                    if r.returncode != 0:
-                        out[kind][name] = "patch does not apply to this tree (skipped)"
-                        continue
-                    facts = os.path.join(wt, "facts.json")
-                    subprocess.run([os.path.join(ROOT, "driver", "run.sh"), wt, facts], stdout=subprocess.PIPE, stderr=subprocess.STDOUT, text=True)
-                    if not os.path.exists(facts):
-                        out[kind][name] = "does not compile (skipped)"
-                        continue
-                    c2, r2 = runner.run_pack(pid, facts)
-                    v = sorted({i.key for i in r2.violations() if i.key not in known})
-                    out[kind][name] = v
-                finally:
-                    shutil.rmtree(wt, ignore_errors=True)
+
+        def one(job):
+            kind, f = job
+            name = os.path.basename(os.path.dirname(f)) if kind == "mutants" else os.path.basename(f)
+            wt = tempfile.mkdtemp(prefix="mirq-st-")
+            try:
+                shutil.rmtree(wt)
+                shutil.copytree(repo, wt, ignore=shutil.ignore_patterns("target", ".git"))
+                r = subprocess.run(["patch", "-p1", "-s", "--no-backup-if-mismatch", "-i", f], cwd=wt, stdout=subprocess.PIPE, stderr=subprocess.STDOUT, text=True)
+                if r.returncode != 0:
+                    return kind, name, "patch does not apply to this tree (skipped)"
+                facts = os.path.join(wt, "facts.json")
+                subprocess.run([os.path.join(ROOT, "driver", "run.sh"), wt, facts], stdout=subprocess.PIPE, stderr=subprocess.STDOUT, text=True)
+                if not os.path.exists(facts):
+                    return kind, name, "does not compile (skipped)"
+                c2, r2 = runner.run_pack(pid, facts)
+                return kind, name, sorted({i.key for i in r2.violations() if i.key not in known})
+            finally:
+                shutil.rmtree(wt, ignore_errors=True)
+
+        from concurrent.futures import ThreadPoolExecutor
+        jobs = [("mutants", f) for f in seeds] + [("benign", f) for f in benign]
+        with ThreadPoolExecutor(max_workers=6) as ex:
+            for kind, name, v in ex.map(one, jobs):
+                out[kind][name] = v
         caught = sum(1 for v in out["mutants"].values() if isinstance(v, list) and v)
         silent = sum(1 for v in out["benign"].values() if isinstance(v, list) and not v)
         rep.stats["selftest"] = out
